@@ -12,7 +12,7 @@ RULE = ("synthesised histories (0-40 commits, 1-5 authors, 1-12 live files) of a
         "moves into / out of a directory, to the root, out of / into a directory whose name contains braces, chains of renames), delete-then-recreate, repeated "
         "touches, commits that list no file, ties in the sort keys, conventional and plain commit messages; non-trivial = at least one "
         "rename or delete; distinct = distinct input"
-        '; a wide_repo stream: histories with 17-27 files and authors materialised as real repositories and read through the tables of `coca git -b`, `-t`, `-o` (no -f)')
+        '; a wide_repo stream: histories with 17-27 files and authors materialised as real repositories and read through the tables of `coca git -b`, `-t`, `-o` (no -f), every other one through the three tables of ONE invocation `coca git -b -t -o`')
 TRUSTED_BASE = ["modelled, not verified: Go regexp (hand-compiled scanners in Lib/Scan.v), sort.Slice (stable "
                 "insertion sort in the model; rows compared as sequences of keys and multisets inside tie groups), "
                 "time.Parse on YYYY-MM-DD dates"]
